@@ -10,6 +10,7 @@ import (
 	"strings"
 
 	"github.com/goptics/varmq/internal/vt"
+	"github.com/goptics/varmq/utils"
 )
 
 func monitorsExtra(m *mon) {
@@ -498,6 +499,7 @@ func init() {
 			e.p("expiry", 1)
 		}
 		e.mkWorker()
+		vt.Mark("life:cfg", nil, fmt.Sprintf("%d %d %d", e.conc, int(utils.Cpus()), map[bool]int{false: 0, true: 1}[e.withCtx]))
 		ref := "Initiated"
 		refConc := e.conc
 		q := -1
@@ -543,13 +545,17 @@ func init() {
 			case "Restart":
 				ref = "Running"
 			case "TunePool":
-				arg = 1 + r.Intn(3)
+				arg = r.Intn(4)
+				eff := arg
+				if arg < 1 {
+					eff = int(utils.Cpus())
+				}
 				if ref != "Running" {
 					wantErr = "ErrNotRunningWorker"
-				} else if arg == refConc {
+				} else if eff == refConc {
 					wantErr = "ErrSameConcurrency"
 				} else {
-					refConc = arg
+					refConc = eff
 				}
 			case "CtxCancel":
 				cancelled = true
@@ -574,6 +580,9 @@ func init() {
 			vt.WaitIdle()
 			if op == "CtxCancel" {
 				got = "nil/" + e.w.Status()
+			}
+			if op != "Add" {
+				vt.Mark("life:op", nil, fmt.Sprintf("%s %d %s", op, arg, strings.ReplaceAll(got, "/", " ")))
 			}
 			if want := wantErr + "/" + ref; got != want && !(op == "CtxCancel" && ref == "Initiated") {
 				e.notes = append(e.notes, fmt.Sprintf("LIFECYCLE: after %v: %s returned %s, the documented machine gives %s", seq, op, got, want))
